@@ -234,6 +234,23 @@ CLAIMED["C17"] = {
     "design": "DESIGN.md section 4 C17",
 }
 
+CLAIMED["C18"] = {
+    "text": "PARTIAL (the netCDF4 library is an oracle). Rocq theorems about a Gallina model of the NetCDF EEMSRead/EEMSWrite logic "
+            "starting from the variable as netCDF4 hands it over: every result written together with others is stored with missing "
+            "cells exactly where ANY of them is missing and its own value elsewhere, for any number of results and grid size "
+            "(C18_write); under the named hypothesis load(store v) = v, reading a written float result with default parameters "
+            "returns the template shape, the values written and exactly the union of missing cells (C18_roundtrip); reading is "
+            "float by default, the positive types reject exactly the variables with a negative non-missing value (checked before "
+            "rounding), the fuzzy type rejects outside [-1.02, 1.02] and otherwise returns values within [-1, 1], the missing value "
+            "marks exactly the equal cells and leaves file-masked cells missing (C18_read_parameters, C18_missing_value); a "
+            "missing variable is reported. Tied by differential runs on real files (rank 1-3, f8/f4/i4/i2, _FillValue masks, all "
+            "parameter combinations, sets of results with different masks), inspected with netCDF4 and read back.",
+    "note": "Trusted: netCDF4/HDF5 (storage, _FillValue masking, type conversion on write), template dimension copy is observed only; "
+            "float32 and integer storage are covered by the correspondence, the round-trip theorem is stated for float64 data.",
+    "technique": "Rocq proof over a model with the storage library as named oracle + differential correspondence on real NetCDF files",
+    "design": "DESIGN.md section 4 C18",
+}
+
 NOT_YET = "check not built yet (planned with the same technique, see DESIGN.md section 4); not claimed in this commit"
 
 
